@@ -554,6 +554,8 @@ class Target(DataExchangeProtocol):
             # send_res_recv_req and self.cmd then set to None
             assert send_data is None, "send_data should be None on first call"
             req = self.send_dep_res_recv_dep_req(None, deadline)
+            if req is None:
+                return None
             self.pni = 0
         else:
             send_data = bytearray(send_data)
@@ -617,9 +619,11 @@ class Target(DataExchangeProtocol):
                 log.debug("ignore non-matching device identifier")
                 res = None
             elif type(req) == DSL_REQ:
-                return self.send_res_recv_req(DSL_RES(self.did), 0)
+                self.send_res_recv_req(DSL_RES(self.did), 0)
+                return None
             elif type(req) == RLS_REQ:
-                return self.send_res_recv_req(RLS_RES(self.did), 0)
+                self.send_res_recv_req(RLS_RES(self.did), 0)
+                return None
             elif type(req) == DEP_REQ:
                 if req.pfb.fmt == DEP_REQ.Attention:
                     res = ATN(self.did, self.nad)
